@@ -489,7 +489,18 @@ impl Out {
     }
 
     pub fn consts(&mut self) {
-        self.emit("const", &[], format!("{} {}", nodejs_semver::MAX_SAFE_INTEGER, nodejs_semver::MAX_LENGTH));
+        // deserialising anything but a JSON string is an error (never a panic), for both types
+        let de = guarded(|| {
+            let bad = ["123", "null", "[\"1.2.3\"]", "{}", "\"not a version\"", "\"\""];
+            let all_err = bad.iter().all(|j| serde_json::from_str::<Version>(j).is_err())
+                && bad.iter().all(|j| serde_json::from_str::<Range>(j).is_err());
+            b01(all_err).to_string()
+        });
+        self.emit(
+            "const",
+            &[],
+            format!("{} {} deser_rejects={}", nodejs_semver::MAX_SAFE_INTEGER, nodejs_semver::MAX_LENGTH, de),
+        );
     }
 }
 
